@@ -83,6 +83,7 @@ bool ops_module(Ctx &c, Toks const &t, std::string const &rest)
     else if (k == "replicas") { p->replica_id = (int) i_of(t[2]); p->n_replicas = (int) i_of(t[3]); p->comm_dir = t[4]; }   // m.opt replicas <id> <n> <dir>
     else if (k == "threads") p->n_threads = (int) i_of(t[2]);
     else if (k == "realthreads") p->real_threads = i_of(t[2]) != 0;
+    else if (k == "scriptlast") p->script_last = i_of(t[2]) != 0;
     else if (k == "perm") { p->perm.clear(); for (size_t i = 2; i < t.size(); i++) p->perm.push_back((int) i_of(t[i])); }
     else if (k == "threadof") { p->thread_of.clear(); for (size_t i = 2; i < t.size(); i++) p->thread_of.push_back((int) i_of(t[i])); }
     else if (k == "rng") p->rng_state = std::strtoull(t[2].c_str(), nullptr, 10);
@@ -93,6 +94,17 @@ bool ops_module(Ctx &c, Toks const &t, std::string const &rest)
     else if (k == "it") { colvarmodule::it = colvarmodule::it_restart = i_of(t[2]); }
     else return false;
     p->setup();
+    return true;
+  }
+  if (op == "m.callback") {     // m.callback <script command> ; <script command> ... : what the force callback runs at every step
+    p->callback_cmds.clear();
+    std::vector<std::string> cur;
+    for (size_t i = 1; i < t.size(); i++) {
+      if (t[i] == ";") { if (!cur.empty()) p->callback_cmds.push_back(cur); cur.clear(); }
+      else cur.push_back(t[i]);
+    }
+    if (!cur.empty()) p->callback_cmds.push_back(cur);
+    p->have_scripts = true;
     return true;
   }
   if (op == "m.mass") { p->engine_mass[i_of(t[1])] = f_of(t[2]); return true; }
